@@ -16,7 +16,11 @@ CONSTANTS OutFile
 Bytes == {"absent", "empty", "len1", "len3", "len4", "len31", "len32", "len33", "len1000", "len100000"}
 Roots == {"absent", "len1", "len31", "len32", "len33", "len1000"}
 Id == {"none", "acct-empty", "acct-wallet-only", "acct-valid", "acct-unknown", "acct-unknown-wallet", "acct-badregex", "acct-long",
-       "key-valid", "key-len1", "key-len47", "key-len49", "key-unknown", "key-len1000"}
+       "key-valid", "key-len1", "key-len47", "key-len49", "key-unknown", "key-len1000",
+       "acct-created", "key-created"}      \* an account created through Dirk earlier in the run (by name / by public key)
+\* The same message classes are also sent CONCURRENTLY (phase 2 of the check): Streams request streams run next to a stream that keeps
+\* creating accounts; "alive" is judged by a fresh client afterwards.
+Streams == 16
 U64 == {"0", "1", "2^63-1", "2^63", "2^64-1"}
 U32 == {"0", "1", "2", "3", "2^32-1"}
 Count == {"0", "1", "2", "17", "300"}
